@@ -231,10 +231,33 @@ Definition fence_of (o : op) : fence_kind * bool (* also the second fid *) :=
 
 Definition is_close_only (l : list bcall) : bool := forallb (fun c => match c with BClose _ => true | _ => false end) l.
 
+(** C05_error_paths on the observed call log: in a Twalk / Twalkgetattr / Tattach answered with an error,
+    every File that was evidently handed out during the request - it is the File a later call of the same
+    request is made on - has been closed when the request is answered.  For a walk the File of the fid
+    walked from (the File of the request's first call) is not the request's to close. *)
+Definition src_of (c : bcall) : list nat :=
+  match c with
+  | BWalk h _ _ | BWalkGetAttr h _ _ | BGetAttr h => [h]
+  | _ => []
+  end.
+Definition err_paths_ok (o : op) (e : nat) (lg : list bcall) : bool :=
+  let closed := flat_map (fun c => match c with BClose h => [h] | _ => [] end) lg in
+  let all_closed (hs : list nat) := forallb (fun h => mem h closed) hs in
+  if e =? 0 then true else
+  match o with
+  | OAttach _ _ _ => all_closed (flat_map src_of lg)
+  | OWalk _ _ _ _ _ =>
+      match flat_map src_of lg with
+      | start :: rest => all_closed (filter (fun h => negb (h =? start)) rest)
+      | [] => true
+      end
+  | _ => true
+  end.
+
 Definition step_ok (injected : bool) (h : hstep) : bool :=
   match h with
   | HS o e v lg objs =>
-      parents_first [] lg lg &&
+      parents_first [] lg lg && err_paths_ok o e lg &&
       match o, objs with
       | OGetAttr _ _, (ino, true, _) :: _ => injected || (ino =? 0) || ((e =? 0) && (v =? ino))        (* coherence *)
       | _, _ => true
